@@ -1927,15 +1927,15 @@ class StridedInterval:
                 # It's testing the sign bit
                 stride = 1 << (a.bits - 1)
                 if b.is_integer:
-                    if b.lower_bound == stride:
+                    v = b.lower_bound & stride
+                    return StridedInterval(bits=b.bits, stride=0, lower_bound=v, upper_bound=v)
+                if b.lower_bound <= b.upper_bound:
+                    # b does not wrap around: the sign bit may be the same for all of its members
+                    if b.upper_bound < stride:
+                        return StridedInterval(bits=b.bits, stride=0, lower_bound=0, upper_bound=0)
+                    if b.lower_bound >= stride:
                         return StridedInterval(bits=b.bits, stride=0, lower_bound=stride, upper_bound=stride)
-                    return StridedInterval(bits=b.bits, stride=0, lower_bound=0, upper_bound=0)
-                is_sol = (
-                    a.lower_bound - b.lower_bound
-                ) % b.stride == 0 and b.lower_bound <= a.lower_bound <= b.upper_bound
-                if is_sol:
-                    return StridedInterval(bits=b.bits, stride=stride, lower_bound=0, upper_bound=stride)
-                return StridedInterval(bits=b.bits, stride=0, lower_bound=0, upper_bound=0)
+                return StridedInterval(bits=b.bits, stride=stride, lower_bound=0, upper_bound=stride)
             # FIXME: implement case only one 1 not in first position
 
         # paper's and
